@@ -1,0 +1,7 @@
+//go:build !verif
+
+package syntax
+
+// VerifDisableRewrites is the constant 0 in ordinary builds, which makes every
+// guard on it dead code.
+const VerifDisableRewrites = 0
